@@ -187,7 +187,7 @@ class Source:
         inr = And(0 <= j, j < self.n)
         st.assume(self.n >= 0,
                   z3.ForAll([j], Implies(inr, And(sel(self.idx, eff(sel(self.key, j))) == j,
-                                                  sel(self.mention, eff(sel(self.key, j))) == And(somej, sel(self.key, j) != ARGS),
+                                                  sel(self.mention, eff(sel(self.key, j))) == (And(somej, sel(self.key, j) != ARGS) if dests else somej),
                                                   sel(self.val, eff(sel(self.key, j))) == sel(self.v, j)))),
                   z3.ForAll([k], Implies(sel(self.mention, k), And(0 <= sel(self.idx, k), sel(self.idx, k) < self.n,
                                                                    eff(sel(self.key, sel(self.idx, k))) == k))))
@@ -282,12 +282,13 @@ class LoadFromFile(_AppBase):
         return [(ValidatorError, None), (SystemExit, None), (RuntimeError, None)]
 
     def effects(self, c):
-        pass
+        if "file_sources" in c.st.ghost:
+            c.st.ghost["file_used"] = c.st.ghost["file_sources"][id_of(c.a["location"])][0]
 
     def _src(self, c):
         if "src" in c.g:
             return c.g["src"]
-        return c.st.ghost["file_sources"][id_of(c.a["location"])]
+        return c.st.ghost["file_sources"][id_of(c.a["location"])][1]
 
     def post(self, c):
         src = self._src(c)
@@ -348,10 +349,10 @@ def _cmd_args_env(ex, st, self_v, args, kwargs, node):
 
 
 def _app_init(ex, st, self_v, args, kwargs, node):
-    """Application.init(parser, opts, args): framework defaults as a dict, or None (ABSTRACT: subclass hook)"""
-    none = st.fork()
+    """Application.init(parser, opts, args): framework defaults as a dict, or None (ABSTRACT: subclass hook; which of the two
+    is fixed per case), or it stops the process"""
     bad = st.fork()
-    return [ex.res(st, st.ghost["fw_dict"]), ex.res(none, NONE), ex.res_exc(bad, SExc(SystemExit, (SInt(1),), {"code": SInt(1)}))]
+    return [ex.res(st, st.ghost["fw_dict"] if st.ghost["fw_used"] else NONE), ex.res_exc(bad, SExc(SystemExit, (SInt(1),), {"code": SInt(1)}))]
 
 
 def _noop(ex, st, self_v, args, kwargs, node):
@@ -378,12 +379,14 @@ class LoadConfig(_AppBase):
     command line, else the one named in GUNICORN_CMD_ARGS, else the default file if it exists) over the framework defaults
     over what it was before; each after that setting's normalisation; every applied value was accepted by its validator
     (otherwise load_config does not return)"""
-    weight = 3
+    weight = 5
+    parallel_cases = 6
 
     def cases(self, env):
         out = []
-        for which in ("cli-config", "env-config", "default-or-none"):
+        for which, use_fw in [(w, f) for w in ("cli-config", "env-config", "default-or-none") for f in (True, False)]:
             st, app, cfg = self.world(env)
+            st.ghost["fw_used"] = use_fw
             env.class_models["ArgParser16"] = ParserModel16()
             cli = Source(st, "cli", optional=True, dests=True)
             envs = Source(st, "env", optional=True, dests=True)
@@ -396,7 +399,8 @@ class LoadConfig(_AppBase):
                 files[t] = Source(st, "file_" + t, optional=False)
                 locs[t] = strops.fresh_str(st, "location." + t, True, canonical=True)
                 st.assume(locs[t].length() > 0)
-            st.ghost["file_sources"] = {id_of(locs[t]): files[t] for t in files}
+            st.ghost["file_sources"] = {id_of(locs[t]): (t, files[t]) for t in files}
+            st.ghost["file_used"] = None
             for t in ("cli", "env", "default"):
                 if t not in locs:
                     locs[t] = strops.fresh_str(st, "location." + t, True, canonical=True)
@@ -416,7 +420,7 @@ class LoadConfig(_AppBase):
             c.fields["get_cmd_args_from_env"] = StubV("cfg.cmd_args_env", cfg)
             STUBS.update({"app.init": _app_init, "app.chdir": _noop, "cfg.parser16": _cfg_parser, "cfg.cmd_args_env": _cmd_args_env,
                           "gunicorn.app.base.get_default_config_file": _default_cfgfile})
-            out.append((which, st, {"self": app}, {"cli": cli, "env": envs, "fw": fw, "files": files, "which": which}))
+            out.append(("%s,framework-defaults=%s" % (which, use_fw), st, {"self": app}, {"cli": cli, "env": envs, "fw": fw, "files": files, "which": which}))
         return out
 
     def raises(self, c):
